@@ -17,6 +17,15 @@ CLAIMED = {
  "C03": dict(design="5 (C03)", technique="Lean 4 theorems generic in the implementor record + exhaustive cross-implementation comparison",
    text="Theorems (Midi/Props/C03.lean): (i) for ANY implementor (universally quantified record of getters, optional lawful overrides) every derived method equals RawShortMessage's on the same bytes - no validity needed; (ii) Raw and the Structured converted from it agree on every accessor, differing only by canon on data bytes; (iii) to_other/from_other/to_structured commute with every accessor. Tie: all 2^21 triples on Raw, Structured, a getter-only implementor and one overriding to_bytes, compared pairwise and against the model.",
    note=TB + "An implementor whose getters are impure or whose to_bytes override is inconsistent is outside the property (hypothesis LawfulAt, shown satisfiable)."),
+ "C04": dict(design="5 (C04)", technique="Lean 4 theorems over the regenerated conversion/feature tables (every value of every source type, every feature subset) + differential run in two cargo configurations",
+   text="Theorems (Midi/Props/C04.lean): a per-row criterion is proved sound once (entryOk_sound: for every value of the source type, incl. i128/u128 and all pointer widths, the macro body yields an in-range value and fails exactly out of range) and the kernel re-checks it against the conversion table regenerated from the source on every run (table_ok); parse_in_range for all strings; new_checked for every subset of enableable features (cfg guards regenerated from newtype_macros.rs and Cargo.toml); constants and message fields in range. Tie: generated probe code (one arm per table row, does not compile if an impl is missing), exhaustive sweeps of 8/16-bit and newtype sources, boundaries + seeded random for wide sources, T::new over the whole repr range in the std and the no-default-features build, all short strings.",
+   note=TB + "Modelled not verified: `as` casts, integer comparison, core's u8/u16 from_str. Hand-written conversion impls are only understood in the delegating form T::try_from(<V>::from(value)); any other hand-written impl on a newtype is reported as unmodelled. Platform pointer width 64 in the harness; theorems cover 16/32/64."),
+ "C05": dict(design="5 (C05)", technique="Lean 4 theorems: value preservation for every table row; parser/printer characterised for all strings / all naturals by induction + exhaustive differential run",
+   text="Theorems (Midi/Props/C05.lean): conversions_faithful (every row keeps the mathematical value, fallible rows accept exactly the in-range values, for every value of the source type); parse_iff (parse s = some v iff s is an optional '+' followed by >=1 ASCII digits with value v <= max - for ALL strings of any length, by induction on the digit loop with overflow check); display_decimal and display_parse (print then parse is the identity) for all values; MIN/MAX/Default. Tie: every conversion row swept, Display of all values, 41k short strings x 6 types + boundary numerals, all pairs for Ord/Eq on 7/4-bit types.",
+   note=TB + "Modelled not verified: core's integer FromStr/Display, derive(Ord, PartialEq, Default), derive_more::Display (validated exhaustively where the domain is finite)."),
+ "C06": dict(design="5 (C06)", technique="Lean 4 theorems generic in the factory + exhaustive constructor sweep",
+   text="Theorems (Midi/Props/C06.lean): for EVERY factory F and all valid arguments each named constructor passes from_bytes_unchecked exactly the bytes the property describes (status = type + channel, 14-bit split low/high, unused bytes zero, valid, of the named type); the structured form of those bytes has exactly the arguments as fields and the bytes are canonical; Raw/Structured corollaries; generic constructors panic iff wrong category, else bytes unchanged; test_util shorthands panic iff an argument is out of range. Tie: every argument tuple of every named constructor (6.5M calls) on Raw and Structured (thorough: + 2 foreign implementors), generic constructors for all 23 types, shorthands over all u8/u16 arguments incl. out-of-range (catch_unwind, panic site compared).",
+   note=TB + "Modelled: panic sites by message text; assert_eq!/expect semantics."),
 }
 
 NOT_YET = "check not built yet in this session (planned, see DESIGN.md); not claimed until its theorems and tie exist"
